@@ -95,6 +95,7 @@ def assemble(unit, workdir, canary=False, canary_loops=False):
     spec = {
         "repo": REPO,
         "sources": unit.get("sources", []),
+        "slices": unit.get("slices", []),
         "rules": unit.get("rules", []),
         "contract": contract_path,
         "broadcast": unit.get("broadcast", []),
